@@ -14,11 +14,12 @@ import (
 
 func init() {
 	register(&Rule{
-		ID: "PL", Props: []string{"C07", "C05"}, Min: 4,
-		Doc: `the slice pool never holds a live buffer: obiseq.RecycleSlice(p) stores the pointer p itself in a sync.Pool, and GetSlice later hands out *p — whatever p points to at that time.
-So at every call RecycleSlice(&X): when X is a struct field (or any variable that outlives the call) the statement that follows assigns nil to X and nothing else does before; when X is a
-local variable the call is deferred (or is the last use of X) and X is not returned. A field handed to the pool and then given a new slice (a setter recycling the old value) makes the pool
-give that new slice to the next Copy()/Subsequence() as its own buffer: the copy overwrites its source and shares its memory.`,
+		ID: "PL", Props: []string{"C07", "C05"}, Min: 2,
+		Doc: `the slice pool never holds a live buffer: obiseq.RecycleSlice(p) stores the pointer p itself in a sync.Pool, and GetSlice — in any goroutine — later reads *p, whatever p points to at that
+time. So at every call RecycleSlice(&X) / RecycleAnnotation(&X), X is a local variable, the call is deferred (or is the last use of X) and X is not returned. The address of a struct field or of an
+element is never pooled: given a new slice later (a setter recycling the old value) the field makes the pool hand that live slice to the next Copy()/Subsequence() as its own buffer — the copy
+overwrites its source; and cleared right after the call (what Recycle() did) it is written by its owner while the next GetSlice() of another goroutine reads it: go test -race reports
+Recycle() against GetSlice() for goroutines that copy and recycle their OWN sequences only, obipairing on 20000 pairs reports 45 of them.`,
 		Run: runPL,
 	})
 }
@@ -94,12 +95,8 @@ func runPL(c *Ctx, s *Sink) {
 					s.Pass(nil, key, call.Pos(), "local buffer, dead once pooled")
 				}
 			default:
-				// a field or an element: the next statement clears it
-				if deferred || idx+1 >= len(list) || !isNilAssign(list[idx+1]) {
-					s.Fail(nil, key, call.Pos(), "the address of "+target+" is stored in the slice pool but "+target+" is not cleared by the next statement: once it is given a new slice, GetSlice() hands that live slice to the next Copy()/Subsequence() as a free buffer — the copy overwrites its source and shares its memory")
-					return
-				}
-				s.Pass(nil, key, call.Pos(), target+" is cleared right after being pooled: the pool only sees a nil slice there")
+				// a field or an element: it outlives the call, and other goroutines get its address from the pool
+				s.Fail(nil, key, call.Pos(), "the address of "+target+" is stored in the slice pool: the next GetSlice()/GetAnnotation() — in any goroutine — reads that field while its owner still writes it (even the nil stored right after: go test -race, Recycle() against GetSlice()), and once the field is given a new slice the pool hands that live slice to the next Copy()/Subsequence() as a free buffer — the copy overwrites its source and shares its memory")
 			}
 		}
 		inspectBlock = func(list []ast.Stmt) {
